@@ -31,6 +31,10 @@ func main() {
 		devC30()
 	case "c36templates":
 		devC36Templates()
+	case "c44gen":
+		devC44Gen(os.Args[2:])
+	case "c44zoo":
+		devC44Zoo(os.Args[2:])
 	case "c36child":
 		os.Exit(c36Child(os.Args[2:]))
 	default:
